@@ -71,3 +71,42 @@ Print Assumptions C09_raw.
 Print Assumptions C09_stream.
 Print Assumptions C09_typed.
 Print Assumptions C09_str_slice.
+
+(* ---- line / column bookkeeping of the two reader families, INSIDE the model (Model/Pos.v: LineColIterator + IoRead's peek slot;
+        SliceRead::position_of_index with memrchr / memchr_iter) — both equal the specification function pos_of, and agree with the
+        abstract cursor's error indices after every admissible sequence of next / peek / discard. *)
+From SJ Require Import Model.Pos Proofs.PosRefine.
+Theorem C09_slice_position_of_index : forall input i,
+  (i <= length input)%nat -> position_of_index input i = pos_of input i.
+Proof. exact slice_position_of_index_spec. Qed.
+Print Assumptions C09_slice_position_of_index.
+
+Theorem C09_linecol_iterator : forall input t k,
+  let s := lci_run t k (lci_new input) in
+  lc_src s = skipn k input /\
+  (lci_line s, lci_col s) = pos_of input k /\
+  lci_byte_offset s = N.of_nat (Nat.min k (length input)).
+Proof. exact lci_run_inv. Qed.
+Print Assumptions C09_linecol_iterator.
+
+Theorem C09_io_reader_lockstep : forall input E ops,
+  is_io E = true -> ops_ok E ops (init_st input) = true ->
+  io_run (tm E) ops (io_new input) = abs_run input E ops (init_st input).
+Proof. exact io_lockstep. Qed.
+Print Assumptions C09_io_reader_lockstep.
+
+Theorem C09_slice_reader_lockstep : forall input E ops,
+  is_io E = false -> tm E = TEof -> ops_ok E ops (init_st input) = true ->
+  sl_run ops (sl_new input) = abs_run input E ops (init_st input).
+Proof. exact slice_lockstep. Qed.
+Print Assumptions C09_slice_reader_lockstep.
+
+Theorem C09_positions : forall input E ops,
+  (is_io E = false -> tm E = TEof) ->
+  ops_ok E ops (init_st input) = true ->
+  let s := abs_final E ops (init_st input) in
+  conc_byte_offset E input ops = N.of_nat (off s) /\
+  (forall (A : Type) c c' i, @error A E s c = Err c' i -> conc_position E input ops = Ok (pos_of input i)) /\
+  (forall (A : Type) c c' i, @peek_error A E s c = Err c' i -> conc_peek_position E input ops = Ok (pos_of input i)).
+Proof. exact C09_positions_agree. Qed.
+Print Assumptions C09_positions.
